@@ -175,6 +175,28 @@ def run(ctx):
             py = impl_eval(("div", ("c", P.num_tuple(a)), ("c", P.num_tuple(z))), {})
             if not (py[0] == "OK" and isinstance(py[1], float) and py[1] != py[1]):
                 res.failures.append(dict(**{"class": "division-by-zero"}, input=dict(tree=f"{a} / {z}"), detail=repr(py)))
+    # ... also when the zero is the VALUE of an expression, whatever number type carries it (seed C05-D: a numpy zero coming out of
+    # np.power slipped past a ZeroDivisionError handler and gave inf): denominators that are exactly zero and exactly representable
+    X, Y = P.V("x"), P.V("y")
+    zeros = [(("sub", X, X), {"x": 3}), (("sub", X, X), {"x": 2.5}), (("mul", P.C(0), X), {"x": 7}), (("neg", P.C(0)), {}),
+             (("sub", ("pow", X, P.Cf(1, 2)), P.C(2)), {"x": 4}), (("sub", ("pow", X, P.Cf(1, 2)), P.C(2)), {"x": 4.0}),
+             (("sub", ("pow", X, P.C(-1)), P.Cf(1, 2)), {"x": 2}), (("sub", ("pow", X, P.C(-2)), P.Cf(1, 4)), {"x": -2}),
+             (("sub", ("pow", P.C(2), X), P.C(1)), {"x": 0.0}), (("sub", ("div", X, P.C(2)), P.C(1)), {"x": 2}),
+             (("sub", ("pow", X, Y), P.C(8)), {"x": 2.0, "y": 3}), (("sub", ("pow", X, Y), P.C(8)), {"x": 2, "y": 3.0}),
+             (("add", ("pow", X, P.C(3)), P.C(8)), {"x": -2.0}), (("mul", ("pow", X, P.Cf(1, 2)), P.C(0)), {"x": 9})]
+    for z, env0 in zeros:
+        env = {ord(k): v for k, v in env0.items()}
+        for a in (P.C(1), P.C(-1), Y if "y" not in env0 else P.C(5), ("mul", P.C(3), X)):
+            e2 = dict(env)
+            if a == Y:
+                e2[ord("y")] = -3
+            e2.setdefault(ord("x"), 1)
+            for t in (("div", a, z), ("add", P.C(1), ("div", a, z)), ("div", P.C(7), ("div", a, z))):
+                res.evaluations += 1
+                py = impl_eval(t, e2)
+                if not (py[0] == "OK" and isinstance(py[1], float) and py[1] != py[1]):
+                    res.failures.append(dict(**{"class": "division-by-zero"}, input=dict(tree=P.sx_text(t), env={chr(k): repr(v) for k, v in e2.items()}),
+                                             detail=f"the denominator {P.sx_text(z)} is exactly zero; evaluated to {py!r} instead of nan"))
 
 
 def replay(payload):
